@@ -224,6 +224,15 @@ func init() {
 					return true
 				})
 			}
+			// (c') the later statement comes behind MANY faulty ones (a parser may tire of reporting, never of checking)
+			for _, fault := range []string{"print )", "var 1", "eval +", "def a { ) }", "print 1 +", "var y = )"} {
+				for _, n := range []int{2, 3, 8, 9, 10, 11, 12, 15, 16, 17, 31, 32, 33, 50, 100, 255, 256, 257, 1000} {
+					s1 := strings.TrimSuffix(strings.Repeat(fault+"\n", n), "\n")
+					for _, s2 := range s2set {
+						c.Do(subC17NoHide, &c17Pair{S1: s1, S2: s2})
+					}
+				}
+			}
 			// (a') token strings of length <=3 over the vocabulary extended by boundary literals, comments ended
 			// by CR / LF / nothing, and layout / non-layout space characters (joined by one ordinary space, so each
 			// of them also sits next to ordinary layout)
